@@ -236,6 +236,24 @@ Theorem setup_pure_phases_fills_pp : forall fun1 fun2 (e : env),
 Proof. exact Tie.setup_pure_phases_fills_pp. Qed.
 Print Assumptions setup_pure_phases_fills_pp.
 
+(* the shared phase record of a solid-solution component is refreshed from the component for EVERY solid solution
+   (ideal or not), on full build and on reuse: all per-phase quantities the residual / Jacobian read *)
+Theorem ss_phase_record_refreshed_for_every_solid_solution :
+    copies_all_phase_fields ss_f_terms setup_ss_comp setup_ss = true /\
+    copies_all_phase_fields ss_f_terms quick_ss_comp quick_ss = true /\
+    mem_str "log10_lambda" (ss_phase_fields ss_f_terms) = true /\
+    mem_str "log10_fraction_x" (ss_phase_fields ss_f_terms) = true.
+Proof. exact Tie.ss_phase_record_refreshed_for_every_solid_solution. Qed.
+Print Assumptions ss_phase_record_refreshed_for_every_solid_solution.
+
+Theorem setup_ss_copies_lambda : forall fun1 fun2 (e : env),
+    wp fun1 fun2 setup_ss e (fun e1 _ =>
+      e1 "x.phase.log10_lambda" = e (setup_ss_comp ++ ".log10_lambda") /\
+      e1 "x.phase.log10_fraction_x" = e (setup_ss_comp ++ ".log10_fraction_x") /\
+      e1 "x.phase.dnc" = e (setup_ss_comp ++ ".dnc")).
+Proof. exact Tie.setup_ss_copies_lambda. Qed.
+Print Assumptions setup_ss_copies_lambda.
+
 (* the executable checker applied to what the implementation reports is sound for the property *)
 Theorem check_hetero_sound : forall c : hcase, case_ok c = true -> hetero_valid c.
 Proof. exact SpecProofs.case_ok_sound. Qed.
